@@ -505,6 +505,63 @@ class Check(PropertyCheck):
             finally:
                 d.close()
         rep.cov["back_to_back_operations"] = nb2b
+        # non-matching status events: EVERY status of the family the running version reports its stack status in (legacy
+        # stack statuses up to v13, unified ones from v14 on) other than the awaited one leaves the operation pending, whether it
+        # arrives before or after the command's response; the awaited one then completes it
+        nnm = 0
+        bad = None
+        for version in ((8, 14) if tier == "quick" else (4, 7, 8, 13, 14)):
+            fam = t.sl_Status if version >= 14 else t.EmberStatus
+            for kind, awaited in (("leave", "NETWORK_DOWN"), ("form", "NETWORK_UP")):
+                for before in (False, True):
+                    d = Driver(version)
+                    try:
+                        for m in list(fam):
+                            if m.name == awaited or bad:
+                                continue
+                            res = {}
+
+                            async def go(_res=res):
+                                try:
+                                    if kind == "leave":
+                                        await d.ez.leaveNetwork()
+                                    else:
+                                        await d.ez.formNetwork(t.EmberNetworkParameters())
+                                    _res["end"] = "returned"
+                                except BaseException as e:  # noqa
+                                    _res["end"] = "raise:" + type(e).__name__
+                            task = d.loop.create_task(go())
+                            d.loop.settle()
+                            name, fut = d.pending_cmd
+                            d.pending_cmd = None
+                            if before:
+                                d.ez.handle_callback("stackStatusHandler", [m])
+                                d.loop.settle()
+                            fut.set_result([fam(0)])
+                            d.loop.settle()
+                            if not before:
+                                d.ez.handle_callback("stackStatusHandler", [m])
+                                d.loop.settle()
+                            nnm += 1
+                            if task.done():
+                                bad = {"input": {"version": version, "operation": kind, "command": "accepted",
+                                                 "event": f"{m!r} {'before' if before else 'after'} the response"},
+                                       "observed": res, "required": f"the operation completes only on the matching event ({awaited}); "
+                                                                    f"any other status of the family leaves it pending"}
+                                continue
+                            d.ez.handle_callback("stackStatusHandler", [fam[awaited]])
+                            d.loop.settle()
+                            if res.get("end") != "returned":
+                                bad = {"input": {"version": version, "operation": kind, "command": "accepted",
+                                                 "events": [repr(m), awaited]},
+                                       "observed": res, "required": "the matching event that arrives after the command was issued completes the operation"}
+                    except BaseException as e:  # noqa
+                        bad = {"input": {"version": version, "operation": kind}, "observed": repr(e), "required": "scenario runs"}
+                    finally:
+                        d.close()
+        rep.cov["non_matching_status_events"] = nnm
+        if bad:
+            rep.violation(bad, found_input=True, signature="events:non-matching-status")
 
     def nontrivial(self, case, obs):
         return any(e[0] == "start" for e in case) and len(case) > 1
